@@ -92,14 +92,7 @@ func (e *c18Eth) kinds() []labKind {
 
 // redeem(uint256,address) call data of the ERC lock-redeem contract, wrapped like c15RedeemBytes
 func c18ERCRedeemBytes(amount int64, tail int64) []byte {
-	sel := ethcommon.FromHex("7bde82f2")
-	a := make([]byte, 32)
-	big.NewInt(amount).FillBytes(a)
-	tok := make([]byte, 32)
-	copy(tok[12:], c15Token.Bytes())
-	bz := append([]byte{0xf8, 0x01}, sel...)
-	bz = append(append(bz, a...), tok...)
-	return append(bz, c15S(tail).Bytes()...)
+	return c15ERCRedeemBytes(amount, tail) // a real RLP transaction (the redeem handlers decode strictly)
 }
 
 func c18RLPTx(to *ethcommon.Address, value int64, data []byte, nonce uint64, signed bool, s *big.Int) []byte {
